@@ -922,8 +922,16 @@ func clearDetector() {
 		return
 	}
 
+	// The detector converts every message into session details BEFORE it looks at the operation
+	// and silently drops messages whose conversion fails (unrecognised protocol, unparsable
+	// phantom address). A Clear message made of the operation alone was therefore never acted on.
+	// Fill in syntactically valid placeholder details; the detector ignores them for Clear.
 	op := pb.StationOperations_Clear
+	phantom := "::"
+	proto_ := pb.IPProto_Tcp
 	msg := &pb.StationToDetector{
+		PhantomIp: &phantom,
+		Proto:     &proto_,
 		Operation: &op,
 	}
 
